@@ -1,0 +1,272 @@
+//go:build verif
+
+package rpc
+
+import (
+	"context"
+	"encoding/json"
+	"errors"
+	"fmt"
+	"io"
+	"net"
+	"net/http"
+	"strconv"
+	"sync"
+	"testing"
+	"time"
+
+	"github.com/gotid/god/internal/verifdrv"
+	"github.com/gotid/god/lib/logx"
+	"github.com/gotid/god/lib/service"
+	"google.golang.org/grpc"
+	"google.golang.org/grpc/codes"
+	"google.golang.org/grpc/credentials/insecure"
+	"google.golang.org/grpc/status"
+	"google.golang.org/protobuf/types/known/wrapperspb"
+)
+
+// C02, unary RPC through a REAL started server: rpc.NewServer(ServerConfig{Timeout, CpuThreshold}) assembles the
+// chain (built-in interceptors of rpc/internal/server.go + those setupInterceptors adds afterwards), Start() serves
+// it on a loopback port, a grpc client calls a scripted method. One server per configuration is started lazily and
+// kept for the whole driver run (the package offers no way to stop one); every case uses a method name of its own,
+// because the breaker interceptor keeps state per method.
+
+type verifC02Handler struct {
+	T    string `json:"t"`    // ret | panic
+	PV   string `json:"pv"`   // panic: kind of the panic value
+	Resp *int64 `json:"resp"` // nil response when absent
+	Code int    `json:"code"` // 0: nil error, else status.Error(code, ...)
+}
+
+type verifC02Case struct {
+	TimeoutMs int64           `json:"timeout_ms"` // ServerConfig.Timeout (0: no timeout interceptor)
+	Cpu       int64           `json:"cpu"`        // ServerConfig.CpuThreshold (0: no shedding interceptor)
+	H         verifC02Handler `json:"h"`
+	HoldMs    int64           `json:"hold_ms"` // the handler ignores its context and stays parked that long (0: returns at once)
+}
+
+const (
+	verifC02Methods   = 512
+	verifC02HangLimit = 5 * time.Second
+)
+
+type verifC02Script struct {
+	spec    verifC02Handler
+	entered chan struct{}
+	release chan struct{}
+	hexit   chan struct{}
+}
+
+type verifC02Server struct {
+	addr    string
+	conn    *grpc.ClientConn
+	next    int
+	scripts sync.Map // method name -> *verifC02Script
+}
+
+var (
+	verifC02Servers = map[string]*verifC02Server{}
+)
+
+type verifC02Err struct{ msg string }
+
+func (e *verifC02Err) Error() string { return e.msg }
+
+func verifC02Panic(pv string) {
+	switch pv {
+	case "", "string":
+		panic("verif: scripted panic")
+	case "error":
+		panic(errors.New("verif: scripted error panic"))
+	case "wrapped":
+		panic(fmt.Errorf("verif: wrapped: %w", io.ErrUnexpectedEOF))
+	case "nilmap":
+		var m map[string]int
+		m["k"] = 1
+	case "nilptr":
+		var p *verifC02Err
+		_ = p.msg
+	case "index":
+		s := []int{}
+		i := len(pv)
+		_ = s[i]
+	case "status":
+		panic(status.Error(codes.NotFound, "verif: status carried by a panic value"))
+	case "abort":
+		panic(http.ErrAbortHandler)
+	case "custom":
+		panic(struct{ A, B int }{1, 2})
+	case "typednil":
+		var e *verifC02Err
+		panic(error(e))
+	case "nil":
+		var v any
+		panic(v)
+	}
+	panic("verif: unknown panic value kind " + pv)
+}
+
+func verifC02FreeAddr() string {
+	l, err := net.Listen("tcp", "127.0.0.1:0")
+	if err != nil {
+		panic(err)
+	}
+	defer l.Close()
+	return l.Addr().String()
+}
+
+// the scripted service: methods Call0..Call511, each dispatching to the script registered under its name
+func (s *verifC02Server) desc() *grpc.ServiceDesc {
+	d := &grpc.ServiceDesc{ServiceName: "verif.C02", HandlerType: (*interface{})(nil)}
+	for i := 0; i < verifC02Methods; i++ {
+		name := "Call" + strconv.Itoa(i)
+		full := "/verif.C02/" + name
+		d.Methods = append(d.Methods, grpc.MethodDesc{
+			MethodName: name,
+			Handler: func(srv interface{}, ctx context.Context, dec func(interface{}) error, interceptor grpc.UnaryServerInterceptor) (interface{}, error) {
+				in := new(wrapperspb.Int64Value)
+				if err := dec(in); err != nil {
+					return nil, err
+				}
+				h := func(ctx context.Context, req interface{}) (interface{}, error) {
+					v, ok := s.scripts.Load(full)
+					if !ok {
+						return nil, status.Error(codes.Unimplemented, "verif: no script")
+					}
+					sc := v.(*verifC02Script)
+					defer close(sc.hexit)
+					close(sc.entered)
+					<-sc.release // ignores ctx on purpose: an overrunning handler
+					if sc.spec.T == "panic" {
+						verifC02Panic(sc.spec.PV)
+					}
+					var resp *wrapperspb.Int64Value
+					if sc.spec.Resp != nil {
+						resp = wrapperspb.Int64(*sc.spec.Resp)
+					}
+					if sc.spec.Code != 0 {
+						return resp, status.Error(codes.Code(sc.spec.Code), "verif: scripted error")
+					}
+					return resp, nil
+				}
+				if interceptor == nil {
+					return h(ctx, in)
+				}
+				return interceptor(ctx, in, &grpc.UnaryServerInfo{Server: srv, FullMethod: full}, h)
+			},
+		})
+	}
+	return d
+}
+
+func verifC02ServerFor(timeoutMs, cpu int64) *verifC02Server {
+	key := fmt.Sprintf("%d/%d", timeoutMs, cpu)
+	if s, ok := verifC02Servers[key]; ok && s.next < verifC02Methods {
+		return s
+	}
+	s := &verifC02Server{addr: verifC02FreeAddr()}
+	svr, err := NewServer(ServerConfig{
+		Config:       service.Config{},
+		ListenOn:     s.addr,
+		Timeout:      timeoutMs,
+		CpuThreshold: cpu,
+	}, func(g *grpc.Server) {
+		g.RegisterService(s.desc(), struct{}{})
+	})
+	if err != nil {
+		panic(err)
+	}
+	logx.Disable()
+	go svr.Start()
+	var conn *grpc.ClientConn
+	for i := 0; i < 200; i++ { // wait for the listener
+		c, err := net.DialTimeout("tcp", s.addr, 100*time.Millisecond)
+		if err == nil {
+			c.Close()
+			break
+		}
+		time.Sleep(10 * time.Millisecond)
+	}
+	conn, err = grpc.Dial(s.addr, grpc.WithTransportCredentials(insecure.NewCredentials()))
+	if err != nil {
+		panic(err)
+	}
+	s.conn = conn
+	verifC02Servers[key] = s
+	return s
+}
+
+func verifC02Run(c *verifC02Case) map[string]any {
+	s := verifC02ServerFor(c.TimeoutMs, c.Cpu)
+	full := "/verif.C02/Call" + strconv.Itoa(s.next)
+	s.next++
+	sc := &verifC02Script{spec: c.H, entered: make(chan struct{}), release: make(chan struct{}), hexit: make(chan struct{})}
+	s.scripts.Store(full, sc)
+
+	type result struct {
+		out *wrapperspb.Int64Value
+		err error
+	}
+	resc := make(chan result, 1)
+	go func() {
+		out := new(wrapperspb.Int64Value)
+		err := s.conn.Invoke(context.Background(), full, wrapperspb.Int64(1), out)
+		if err != nil {
+			out = nil
+		}
+		resc <- result{out, err}
+	}()
+
+	hold := time.Duration(c.HoldMs) * time.Millisecond
+	var res result
+	got, prompt, entered := false, false, false
+	select {
+	case <-sc.entered:
+		entered = true
+	case res = <-resc: // answered without the handler being entered (shed, broken, ...)
+		got = true
+	case <-time.After(verifC02HangLimit):
+		return map[string]any{"hung": true}
+	}
+	if entered {
+		if hold > 0 {
+			select {
+			case res = <-resc: // answered while the handler is still parked: the server's deadline did it
+				got, prompt = true, true
+			case <-time.After(hold):
+			}
+		}
+		close(sc.release)
+	}
+	if !got {
+		select {
+		case res = <-resc:
+		case <-time.After(verifC02HangLimit):
+			return map[string]any{"hung": true}
+		}
+	}
+	if entered {
+		select {
+		case <-sc.hexit:
+		case <-time.After(verifC02HangLimit):
+			return map[string]any{"hung": true}
+		}
+	}
+	out := map[string]any{"hung": false, "entered": entered, "prompt": prompt, "code": int(status.Code(res.err))}
+	if res.out != nil {
+		out["resp"] = res.out.Value
+	}
+	return out
+}
+
+// TestVerifDriverC02 drives real started rpc servers (see above).
+func TestVerifDriverC02(t *testing.T) {
+	logx.Disable()
+	verifdrv.Run(t, func(raw json.RawMessage) any {
+		var c verifC02Case
+		if err := json.Unmarshal(raw, &c); err != nil {
+			return map[string]any{"error": err.Error()}
+		}
+		return verifC02Run(&c)
+	})
+}
